@@ -153,6 +153,7 @@ def stepLine (s : St) (line : String) : St × String :=
       match n.toInt? with
       | some k => let c := rcInit k; (.rc c, s!"- {c.counter}")
       | none => (s, "bad-op")
+  | "lifeprobe" :: _ => (s, "-")   -- oracle-only operation: object lifetime is not modelled
   | w =>
     match s with
     | .none => (s, "bad-op")
